@@ -605,17 +605,30 @@ class PacketTransmitter(Elaboratable):
         with m.If(self.retry_required):
             m.d.ss += retry_pending.eq(1)
 
+        # Keep track of whether a(nother) retry was requested while a packet was on its way out;
+        # that packet doesn't count towards the retry.
+        tx_busy         = Signal()
+        retry_restarted = Signal()
+        with m.If(packet_tx.done):
+            m.d.ss += tx_busy.eq(0)
+        with m.Elif(packet_tx.generate):
+            m.d.ss += tx_busy.eq(1)
+        with m.If(self.retry_required & (tx_busy | packet_tx.generate)):
+            m.d.ss += retry_restarted.eq(1)
+
 
         with m.FSM(domain="ss"):
 
             # DISPATCH_PACKET -- wait packet transmissions to be scheduled, and prepare
             # our local transmitter with the proper data to send them.
             with m.State("DISPATCH_PACKET"):
+                m.d.ss += retry_restarted.eq(0)
 
                 # If we have packets to send, pass them to our transmitter.
                 with m.If(self.bringup_complete & (packets_to_send != 0)):
 
-                    with m.If(~retry_pending):
+                    # (A retry requested in this very cycle isn't visible in retry_pending yet.)
+                    with m.If(~retry_pending & ~self.retry_required):
                         # Wait until the packet is sent.
                         m.next = "WAIT_FOR_SEND"
 
@@ -648,12 +661,17 @@ class PacketTransmitter(Elaboratable):
 
                 # We're done with this packet.
                 with m.If(packet_tx.done):
-                    m.d.comb += dequeue_send.eq(1)
+                    m.d.ss += retry_restarted.eq(0)
 
-                    # If this was the last packet to retransmit, we're done handling this LBAD.
-                    with m.If(packets_to_send == 1):
-                        m.d.ss += retry_pending.eq(0)
-                        m.next = "DISPATCH_PACKET"
+                    # If another LBAD arrived in the meantime, our read pointer and counter have been
+                    # set up anew; don't touch them.
+                    with m.If(~retry_restarted & ~self.retry_required):
+                        m.d.comb += dequeue_send.eq(1)
+
+                        # If this was the last packet to retransmit, we're done handling this LBAD.
+                        with m.If(packets_to_send == 1):
+                            m.d.ss += retry_pending.eq(0)
+                            m.next = "DISPATCH_PACKET"
 
 
         #
